@@ -1,3 +1,4 @@
+import CacheVerif.Proofs.ProtoCompose
 import CacheVerif.Proofs.Wrappers
 import CacheVerif.Proofs.ProtoHW
 import CacheVerif.Spec.Linearizability
@@ -190,6 +191,21 @@ theorem C03_methods_are_spec [Inhabited V] (m : Spec.AMap K V) (k : K) (v : V) (
    ⟨(Proofs.Wrappers.compute_spec m k v g _ (Or.inl rfl)).1, (Proofs.Wrappers.compute_spec m k v g _ (Or.inl rfl)).2.1⟩,
    ⟨(Proofs.Wrappers.loadAndDelete_spec m k v g _ (Or.inl rfl)).1, (Proofs.Wrappers.loadAndDelete_spec m k v g _ (Or.inl rfl)).2.1⟩,
    (Proofs.Wrappers.delete_spec m k v g _ (Or.inl rfl)).1⟩
+
+/-- **M4a ⊕ M4b, the M4a half**: the lock-free lookup of the real code scans the bucket chain with several atomic loads, and
+M4b (`C03_reader_hindsight`, `C04_reader_hindsight`) shows the scan returns the logical content of the chain at *some
+instant during the scan* - an instant at which the M4a thread sits at its read pc.  The binding of the key in the
+loaded generation at **any** such instant (`s1`: the thread is at the read pc; whatever happens afterwards, `mid2`) is a
+legal answer for a lookup whose call covers the interval: it was the abstract binding at some state of the interval,
+or is what a writer helped by a `Clear` in the interval left.  So M4a's one-step chain read can stand for the scan. -/
+theorem C03_C04_read_any_instant (hmin : 0 < p.minLen) (pre mid1 mid2 : List (Model.Proto.Tid × Choice K V))
+    (s0 s1 s' : Model.Proto.St K V) (h0 : Model.Proto.run p (Model.Proto.init p) pre = some s0)
+    (h1 : Model.Proto.run p s0 mid1 = some s1) (h2 : Model.Proto.run p s1 mid2 = some s') (t : Model.Proto.Tid) (k : K)
+    (hstart : (s0.l t).pc ≠ .ldRead) (hpc : (s1.l t).pc = .ldRead) :
+    let v := (s1.g.tables (s1.l t).tbl).data.get k
+    (∃ x ∈ trace p s0 (mid1 ++ mid2), absGet x.g k = v) ∨
+    (∃ e ∈ events p s0 (mid1 ++ mid2), ∃ u f lie co, HelpAt e u k f lie co ∧ v = (specDc f lie co (absGet e.pre.g k)).1) :=
+  Proofs.ProtoCompose.read_any_instant p hmin pre mid1 mid2 s0 s1 s' h0 h1 h2 t k hstart hpc
 
 /-- the operations of M4a that the trace acceptor starts for the API calls of the real code are the calls of `doCompute`
 those methods make in the working tree (both files: `Proofs.Wrappers.twins`) -/
